@@ -276,6 +276,56 @@ def h_history_kernel(env, cls):
                 env.equal("value_after_failed_call_%d%d" % (i, j), got[i, j], ref[i, j])
 
 
+SDMX_C = "ciderpress/lib/mod_cider/fast_sdmx.c"
+
+
+def h_history_sdmx(env, deriv):
+    """EXXSphGenerator._contract_ao_to_bas / _contract_ao_to_bas_bwd (ciderpress/pyscf/sdmx.py, the real wrappers down to the
+    interpreted SDMXcontract_ao_to_bas(_l1)(_bwd)) called repeatedly on ONE generator object - the second grid block, the second
+    density matrix, the next SCF cycle - give what a fresh generator gives.  deriv = 0 drives the accumulate-into kernel
+    (ao += ...), deriv = 1 the overwriting one."""
+    from . import c02
+    sd = env.m.sdmx
+    mol = c02._sdmx_mol()
+    ng = 2
+    nrf, nao, ny = int(sd._get_nrf(mol)), int(mol.nao_nr()), int(sd._get_ylm_atom_loc(mol)[-1])
+    nb, nyv = (7, 4) if deriv else (1, 1)
+    ylm = env.arr("ylm", (nyv, ny, ng), lo="-2", hi="2")
+    coords = np.ascontiguousarray(np.array([[0.1, 0.2, 0.3], [0.5, -0.4, 0.9]]))
+    bs = [env.arr("b%d" % k, (nb, nrf, ng), lo="-2", hi="2") for k in range(2)]
+    cs = [env.arr("c%d" % k, (nao, ng), lo="-2", hi="2") for k in range(2)]
+
+    class _Settings:
+        n1terms = 1 if deriv else 0
+
+    class _Plan:
+        fit_metric = "ovlp"
+        settings = _Settings()
+
+    def fresh():
+        return sd.EXXSphGenerator(_Plan())
+    shls, ao_loc = (0, mol.nbas), mol.ao_loc_nr().astype(np.int32)
+    flat = lambda a: list(np.asarray(a, dtype=object if env.sym else float).ravel())
+    cast = (lambda a: a.copy()) if env.sym else (lambda a: np.ascontiguousarray(a, dtype=float).copy())
+    used = fresh()
+    ok, first = env.attempt("backward_returns", lambda: used._contract_ao_to_bas_bwd(mol, cast(bs[0]), shls, ao_loc, coords, ylm=cast(ylm)))
+    if not ok:
+        return
+    first = flat(first)
+    second = flat(used._contract_ao_to_bas_bwd(mol, cast(bs[1]), shls, ao_loc, coords, ylm=cast(ylm)))
+    again = flat(used._contract_ao_to_bas_bwd(mol, cast(bs[0]), shls, ao_loc, coords, ylm=cast(ylm)))
+    ref1 = flat(fresh()._contract_ao_to_bas_bwd(mol, cast(bs[1]), shls, ao_loc, coords, ylm=cast(ylm)))
+    for k, (a, b) in enumerate(zip(second, ref1)):
+        env.equal("second_backward_call_equals_fresh_generator_%d" % k, a, b)
+    for k, (a, b) in enumerate(zip(again, first)):
+        env.equal("repeated_backward_call_%d" % k, a, b)
+    f_used = flat(used._contract_ao_to_bas(mol, cast(cs[0]), shls, ao_loc, coords, ylm=cast(ylm)))
+    f_used2 = flat(used._contract_ao_to_bas(mol, cast(cs[1]), shls, ao_loc, coords, ylm=cast(ylm)))
+    f_ref2 = flat(fresh()._contract_ao_to_bas(mol, cast(cs[1]), shls, ao_loc, coords, ylm=cast(ylm)))
+    for k, (a, b) in enumerate(zip(f_used2, f_ref2)):
+        env.equal("second_forward_call_equals_fresh_generator_%d" % k, a, b)
+
+
 def tasks(tier):
     td = sym_mods().td
     out = []
@@ -294,6 +344,8 @@ def tasks(tier):
     for cfg in [("npa", 1, "SEP", 1, "sl+nldf"), ("npa", 2, "NPOL", 1, "sl"), ("nst", 2, "SEP", 2, "sl+nldf")]:
         out.append(Task("alias/eval_xc_cider/%s/nspin%d/%s/v%d/%s" % cfg, h_alias_evalxc, dict(slmode=cfg[0], nspin=cfg[1], mode=cfg[2], version=cfg[3], layout=cfg[4]),
                         mods="numint", max_paths=4096))
+    for deriv in (0, 1):
+        out.append(Task("history/sdmx_generator/deriv%d" % deriv, h_history_sdmx, dict(deriv=deriv), mods="numint"))
     for cls in ("SubsetRBF", "SpinSymRBF"):
         out.append(Task("history/kernel/%s" % cls, h_history_kernel, dict(cls=cls), mods="kernels"))
     for n in (3, 5):
@@ -307,13 +359,16 @@ def tasks(tier):
 
 def prepare(tier):
     m = sym_mods()
-    m.td, m.fn, m.settings, m.plans, m.baselines, m.xc_evaluator, m.xc_evaluator2, m.numint, m.kernels
+    m.td, m.fn, m.settings, m.plans, m.baselines, m.xc_evaluator, m.xc_evaluator2, m.numint, m.kernels, m.sdmx
+    from ..llsym import bridge
+    from ..llsym.ccall import STATS
+    bridge.install(common.ctx(), "libmcider", SDMX_C, ["SDMXcontract_ao_to_bas", "SDMXcontract_ao_to_bas_bwd", "SDMXcontract_ao_to_bas_l1", "SDMXcontract_ao_to_bas_l1_bwd"], hybrid=True, stats=STATS)
 
 
 META = dict(
     explanation="symbolic execution with caller-owned symbolic arrays compared term-by-term before/after each call on every feasible path; "
                 "the real nr_* orchestration batched vs separate and one vs two grid blocks; call histories on one plan/kernel object vs fresh objects",
-    functions=["ciderpress/dft/settings.py: get_cider_exponent(_gga), get_s2, ds2, get_alpha, dalpha", "ciderpress/dft/transform_data.py: all fill_feat_/fill_deriv_",
+    functions=['ciderpress/pyscf/sdmx.py: EXXSphGenerator._contract_ao_to_bas, _contract_ao_to_bas_bwd, _contract_ao_to_bas_helper, _contract_ao_to_bas_single_ + fast_sdmx.c SDMXcontract_ao_to_bas(_l1)(_bwd) interpreted (history/sdmx_generator/*)', "ciderpress/dft/settings.py: get_cider_exponent(_gga), get_s2, ds2, get_alpha, dalpha", "ciderpress/dft/transform_data.py: all fill_feat_/fill_deriv_",
                "ciderpress/dft/feat_normalizer.py: FeatNormalizerList.*", "ciderpress/dft/plans.py: SemilocalPlan.get_feat/get_vxc, NLDFAuxiliaryPlan.eval_rho_full/eval_vxc_full",
                "ciderpress/pyscf/numint.py: eval_xc_cider, nr_rks, nr_uks, nr_rks_nldf, nr_uks_nldf, CiderNumInt.contract_wv, _tau_dot_sparse",
                "ciderpress/models/kernels.py: _SubsetMixin/_SpinSymMixin lock flag"],
@@ -321,5 +376,5 @@ META = dict(
     stubs=["PySCF _scale_ao_sparse/_dot_ao_ao_sparse/hermi_sum/_format_uks_dm/block_loop/_gen_rho_evaluator: numpy reference implementations of their documented formulas",
            "eval_xc_cider (in the nr_* harness): uninterpreted exc with declared potentials (C01-L1 contract)",
            "NLDF generator: contract stub with one cache per spin filled by get_features and read by get_potential (the real object's statefulness)"],
-    assumptions=["real max_memory -> blksize arithmetic with BLKSIZE-aligned grids is outside", "SDMX generator buffers (_cached_ao_data) not covered"],
+    assumptions=["real max_memory -> blksize arithmetic with BLKSIZE-aligned grids is outside", "SDMX generator AO cache (_cached_ao_data) not covered"],
 )
